@@ -183,19 +183,21 @@ Rmdirat(fs, d, name) ==
 \* renameat2(sd, sn, dd, dn, flags) with flags in {"", "NOREPLACE", "EXCHANGE"}
 Renameat(fs, sd, sn, dd, dn, flag) ==
     IF ~IsDir(fs, sd) \/ ~IsDir(fs, dd) THEN [res |-> Err("ENOTDIR"), fs |-> fs]
-    ELSE IF sn \in {".", ".."} \/ dn \in {".", ".."} THEN [res |-> Err("EBUSY"), fs |-> fs]
+    ELSE IF sn \in {".", ".."} THEN [res |-> Err("EBUSY"), fs |-> fs]
+    ELSE IF dn \in {".", ".."} THEN [res |-> Err(IF flag = "NOREPLACE" THEN "EEXIST" ELSE "EBUSY"), fs |-> fs]
     ELSE IF ~HasChild(fs, sd, sn) THEN [res |-> Err("ENOENT"), fs |-> fs]
     ELSE
-    LET s == Child(fs, sd, sn) IN
-    IF IsDir(fs, s) /\ IsAncestor(fs, s, dd) THEN [res |-> Err("EINVAL"), fs |-> fs]
-    ELSE IF ~HasChild(fs, dd, dn) THEN
-        IF flag = "EXCHANGE" THEN [res |-> Err("ENOENT"), fs |-> fs]
-        ELSE IF ~Linked(fs, dd) /\ dd # P THEN [res |-> Err("ENOENT"), fs |-> fs]
+    LET s == Child(fs, sd, sn)  has == HasChild(fs, dd, dn) IN
+    \* order of fs/namei.c do_renameat2: NOREPLACE/EXCHANGE existence tests, then the lock_rename trap tests
+    IF has /\ flag = "NOREPLACE" THEN [res |-> Err("EEXIST"), fs |-> fs]
+    ELSE IF ~has /\ flag = "EXCHANGE" THEN [res |-> Err("ENOENT"), fs |-> fs]
+    ELSE IF IsDir(fs, s) /\ IsAncestor(fs, s, dd) THEN [res |-> Err("EINVAL"), fs |-> fs]
+    ELSE IF ~has THEN
+        IF ~Linked(fs, dd) /\ dd # P THEN [res |-> Err("ENOENT"), fs |-> fs]
         ELSE [res |-> Ok(s), fs |-> [fs EXCEPT !.dents = (@ \ {<<sd, sn, s>>}) \cup {<<dd, dn, s>>}]]
     ELSE
     LET t == Child(fs, dd, dn) IN
-    IF flag = "NOREPLACE" THEN [res |-> Err("EEXIST"), fs |-> fs]
-    ELSE IF flag = "EXCHANGE" THEN
+    IF flag = "EXCHANGE" THEN
         IF IsDir(fs, t) /\ IsAncestor(fs, t, sd) THEN [res |-> Err("EINVAL"), fs |-> fs]
         ELSE [res |-> Ok(s),
               fs  |-> [fs EXCEPT !.dents = (@ \ {<<sd, sn, s>>, <<dd, dn, t>>}) \cup {<<dd, dn, s>>, <<sd, sn, t>>}]]
@@ -209,13 +211,15 @@ Renameat(fs, sd, sn, dd, dn, flag) ==
 
 \* linkat(od, on, nd, nn, 0): never follows, directories refused
 Linkat(fs, od, on, nd, nn) ==
-    IF ~IsDir(fs, od) \/ ~IsDir(fs, nd) THEN [res |-> Err("ENOTDIR"), fs |-> fs]
-    ELSE IF on \in {".", ".."} THEN [res |-> Err("EPERM"), fs |-> fs]
-    ELSE IF ~HasChild(fs, od, on) THEN [res |-> Err("ENOENT"), fs |-> fs]
+    \* fs/namei.c do_linkat: the old path is looked up first (no-follow), then the new entry is
+    \* prepared (filename_create), then vfs_link refuses directories
+    LET old == OpenatNoFollow(fs, od, on) IN
+    IF ~old.ok THEN [res |-> old, fs |-> fs]
+    ELSE IF ~IsDir(fs, nd) THEN [res |-> Err("ENOTDIR"), fs |-> fs]
     ELSE IF nn \in {".", ".."} \/ HasChild(fs, nd, nn) THEN [res |-> Err("EEXIST"), fs |-> fs]
-    ELSE LET s == Child(fs, od, on) IN
-         IF IsDir(fs, s) THEN [res |-> Err("EPERM"), fs |-> fs]
-         ELSE [res |-> Ok(s), fs |-> [fs EXCEPT !.dents = @ \cup {<<nd, nn, s>>}]]
+    ELSE IF ~Linked(fs, nd) /\ nd # P THEN [res |-> Err("ENOENT"), fs |-> fs]
+    ELSE IF IsDir(fs, old.ino) THEN [res |-> Err("EPERM"), fs |-> fs]
+    ELSE [res |-> Ok(old.ino), fs |-> [fs EXCEPT !.dents = @ \cup {<<nd, nn, old.ino>>}]]
 
 (***************************************************************************)
 (* fs.protected_symlinks (fs/namei.c may_follow_link): following is        *)
